@@ -393,7 +393,7 @@ class DnsNameUncompressed(ParsableBase, Serializable):
 
 @attr.s
 class DnsRecordRrsig(ParsableBase):  # pylint: disable=too-many-instance-attributes
-    HEADER_SIZE = 24
+    HEADER_SIZE = 18
 
     type_covered = attr.ib(validator=attr.validators.instance_of((DnsRrType, DnsRrTypePrivate)))
     algorithm = attr.ib(validator=attr.validators.instance_of(DnsSecAlgorithm))
